@@ -446,7 +446,7 @@ int main(int argc, char** argv) {
     const auto procs = make_procs(thorough);
     uint64_t idx = 0;
     const double scale = atof(vh::opt("scale", "1").c_str());
-    const int kmax = int(atof(vh::opt("kmax", thorough ? "12" : "9").c_str()));
+    const int kmax = int(atof(vh::opt("kmax", thorough ? "14" : "9").c_str()));
 
     //---- exhaustive compositions of k granules
     for (size_t pi = 0; pi < procs.size(); ++pi) {
@@ -489,7 +489,7 @@ int main(int argc, char** argv) {
     vh::sample("exhaustive: every composition of k<=kmax granules, e.g. FirFilterR nh=7, k=5: [1,1,1,1,1], [2,3], [4,1], ... (16 framings) vs one call on 5 samples");
 
     //---- random heavy-tailed framings of long streams
-    const int nrand = int((thorough ? 12 : 2) * scale + 0.5);
+    const int nrand = int((thorough ? 60 : 3) * scale + 0.5);
     const int maxlen = thorough ? 100000 : 10000;
     for (size_t pi = 0; pi < procs.size(); ++pi) {
         const Proc& p = procs[pi];
